@@ -484,7 +484,7 @@ def _jobs_for(prop, tier):
         return [j for j in jobs_option_below(tier) if j[1][3] == 'combinations'] + jobs_combinations(tier) + jobs_axis0(tier, 'combinations') + jobs_record_below(tier, ('combinations',))
     if prop == 'C03':
         return jobs_c03(tier) + jobs_option_reduce(tier) + jobs_axis(tier, ('reduce',)) + jobs_reduce_nonlocal(tier) + jobs_unmasked_passthrough(('reduce_next',)) + jobs_record_reduce(tier)
-    return {'C02': (lambda t: jobs_c02(t) + jobs_numpy_toregular(t) + jobs_regular_getitem_jagged(t) + jobs_list_asslice(t) + jobs_indexed_widths(t) + jobs_indexed_is_unique(t)), 'C03': jobs_c03, 'C04': (lambda t: jobs_c04(t) + jobs_numpy_toregular(t)), 'C06': (lambda t: jobs_c06(t) + jobs_axis(t, ('sort', 'argsort')) + jobs_numpy_sort(t) + jobs_sort_nonlocal(t) + jobs_option_sort(t) + jobs_option_sort_above(t) + jobs_option_argsort(t) + jobs_string_argsort(t) + jobs_unmasked_passthrough(('sort_next', 'argsort_next'))), 'C08': (lambda t: jobs_c08(t) + jobs_numpy(t) + jobs_numpy_types(t) + jobs_union(t) + jobs_reverse_merge(t) + jobs_record_merge(t) + jobs_list_merge(t) + [j for j in jobs_record_named(t) if j[0] is h_record_mergemany_named] + jobs_merge_union(t) + jobs_union_ops(t)), 'C17': (lambda t: jobs_c17(t) + jobs_record_keys(t) + jobs_record_key_at(t) + jobs_node_form(t) + jobs_numpy_form(t) + jobs_record_form(t) + jobs_node_type(t) + jobs_union_form(t) + jobs_record_depth(t) + jobs_numpy_type(t)), 'C12': (lambda t: jobs_numpy(t) + jobs_numpy_astype(t) + [(h_index_alloc, (), 900)] + [(h_axis0, (L_, 'combinations', n_, True), 900) for L_, n_ in ((1, 2), (2, 3), (1, 3), (0, 2))] + [j for j in jobs_numpy_getitem(t) if j[1][3] == 'array']), 'C10': (lambda t: jobs_c10(t) + [j for j in jobs_record_named(t) if j[0] is h_record_field_key] + jobs_project(t) + [j for j in jobs_option_below(t) if j[1][3] in ('getitem_field', 'getitem_fields')] + jobs_record_setitem(t) + jobs_record_key_at(t)), 'C05': jobs_c05, 'C09': jobs_c09}.get(prop, lambda t: [])(tier)
+    return {'C02': (lambda t: jobs_c02(t) + jobs_numpy_toregular(t) + jobs_regular_getitem_jagged(t) + jobs_list_asslice(t) + jobs_indexed_widths(t) + jobs_indexed_is_unique(t)), 'C03': jobs_c03, 'C04': (lambda t: jobs_c04(t) + jobs_numpy_toregular(t)), 'C06': (lambda t: jobs_c06(t) + jobs_axis(t, ('sort', 'argsort')) + jobs_numpy_sort(t) + jobs_sort_nonlocal(t) + jobs_option_sort(t) + jobs_option_sort_above(t) + jobs_option_argsort(t) + jobs_string_argsort(t) + jobs_unmasked_passthrough(('sort_next', 'argsort_next'))), 'C08': (lambda t: jobs_c08(t) + jobs_numpy(t) + jobs_numpy_types(t) + jobs_union(t) + jobs_reverse_merge(t) + jobs_record_merge(t) + jobs_list_merge(t) + [j for j in jobs_record_named(t) if j[0] is h_record_mergemany_named] + jobs_merge_union(t) + jobs_union_ops(t)), 'C17': (lambda t: jobs_c17(t) + jobs_record_keys(t) + jobs_record_key_at(t) + jobs_node_form(t) + jobs_numpy_form(t) + jobs_record_form(t) + jobs_node_type(t) + jobs_union_form(t) + jobs_record_depth(t) + jobs_numpy_type(t)), 'C12': (lambda t: [j for j in jobs_c02(t) if j[1][0] in ('BitMaskedArray', 'ByteMaskedArray')] + jobs_numpy(t) + jobs_numpy_astype(t) + [(h_index_alloc, (), 900)] + [(h_axis0, (L_, 'combinations', n_, True), 900) for L_, n_ in ((1, 2), (2, 3), (1, 3), (0, 2))] + [j for j in jobs_numpy_getitem(t) if j[1][3] == 'array']), 'C10': (lambda t: jobs_c10(t) + [j for j in jobs_record_named(t) if j[0] is h_record_field_key] + jobs_project(t) + [j for j in jobs_option_below(t) if j[1][3] in ('getitem_field', 'getitem_fields')] + jobs_record_setitem(t) + jobs_record_key_at(t)), 'C05': jobs_c05, 'C09': jobs_c09}.get(prop, lambda t: [])(tier)
 
 
 # ------------------------------------------------------------------------------------------------ C01: getitem_next of list nodes
@@ -1170,9 +1170,10 @@ def build_bytemasked(nc, pattern, valid_when, name='node'):
     return this, mk
 
 
-def build_bitmasked(nc, pattern, valid_when, lsb, name='node'):
+def build_bitmasked(nc, pattern, valid_when, lsb, name='node', extra=0):
+    """extra: further mask bytes beyond the ones the entries need (a padded validity bitmap: the constructor accepts any longer mask)"""
     n = len(pattern)
-    nbytes = (n + 7) // 8 or 1
+    nbytes = ((n + 7) // 8 or 1) + extra
     fo, sz, al, fields = nc.layout_of('BIT', '_ZNK7awkward14BitMaskedArray6lengthEv')
     data = nc.m.array(name + '_mask', ('i', 8), nbytes, const=True)
     a0 = z3.Array(name + '_mask', z3.BitVecSort(64), z3.BitVecSort(8))
@@ -1827,11 +1828,12 @@ def h_convert(cls, dims, variant, meth, extra, kind):
                                 [None if p else i for i, p in enumerate(pat)])
     elif cls == 'BitMaskedArray':
         pat = tuple(map(bool, dims))
-        vw, lsb = variant
-        this, a0 = build_bitmasked(nc, pat, vw, lsb)
+        vw, lsb = variant[:2]
+        extra_ = variant[2] if len(variant) > 2 else 0          # mask bytes beyond the needed ones
+        this, a0 = build_bitmasked(nc, pat, vw, lsb, extra=extra_)
         vals = [NONE if p else Elem(BV(i)) for i, p in enumerate(pat)]
         short = '14BitMaskedArray'
-        nbytes = (len(pat) + 7) // 8 or 1
+        nbytes = ((len(pat) + 7) // 8 or 1) + extra_
         rp = lambda model, lc: ('i64 %s bitmask %s %d %d %d ' % (fullnative.ints(range(max(lc, len(pat)))), fullnative.ints([model.eval(z3.Select(a0, BV(k)), model_completion=True).as_long() for k in range(nbytes)]),
                                                                      1 if vw else 0, len(pat), 1 if lsb else 0), [None if p else i for i, p in enumerate(pat)])
     else:
@@ -1903,6 +1905,9 @@ def jobs_c02(tier):
             for p in pats:
                 for v in itertools.product((True, False), repeat=2):
                     js.append((h_convert, (cls, p, v, meth, extra, kind), 1800))
+            # a mask longer than the entries need (padded bitmap): one and two surplus bytes
+            js.append((h_convert, (cls, pats[0], (True, True, 1), meth, extra, kind), 1800))
+            js.append((h_convert, (cls, (0,) * 8 + (1,), (False, False, 2), meth, extra, kind), 1800))
         else:
             js.append((h_convert, (cls, (0, 0, 0), None, meth, extra, kind), 1800))
     return js
